@@ -43,5 +43,11 @@ for d in sorted(glob.glob(ROOT + "/C*/")):
     if not now[1].startswith("DETECTED"):
         miss.append(name)
 open(ROOT + "/MATRIX.md", "w").write("\n".join(out) + "\n")
+# compact form for DESIGN.md: change | first | now | clause
+comp = ["| Seeded change | First run | Now | Caught by |", "|---|---|---|---|"]
+for l in out[2:]:
+    c = [x.strip() for x in l.strip("|").split("|")]
+    comp.append("| %s | %s | %s | %s |" % (c[0], c[2], c[3], c[4][:110]))
+open(ROOT + "/MATRIX_compact.md", "w").write("\n".join(comp) + "\n")
 n = len(out) - 2
 print("%d seeded changes, %d not detected now: %s" % (n, len(miss), miss))
